@@ -447,30 +447,31 @@ def oracle_displacement(case):
     return labs
 
 
+_ROUTES = {'route_sys_idx': 0.1, 'route_sys_pos': 0.05, 'route_sys_mix': 0.045}
+_SHAPES = {'shape_1-N': 0.12, 'shape_N-1': 0.12, 'shape_N-N': 0.12, 'shape_1-1': 0.12}
+_COMMON = dict(_ROUTES, **_SHAPES, nt=0.36, nt_mixed=0.36, tilted=0.33, rotated=0.19, origin=0.23, kind_dyadic=0.045,
+               kind_intcart=0.02)
+
 CLAUSES = [
     Clause('lattice', oracle_lattice, gens_c02.general, quick=12000, thorough=200000,
-           min_share={'nt': 0.35, 'nt_mixed': 0.35, 'multi_axis_shift': 0.2, 'tilted': 0.25, 'rotated': 0.15, 'origin': 0.2,
-                      'route_sys_idx': 0.07, 'route_sys_pos': 0.04, 'route_sys_mix': 0.04, 'shape_1-N': 0.09, 'shape_N-1': 0.09, 'shape_N-N': 0.09,
-                      'shape_1-1': 0.09, 'kind_intcart': 0.015, 'kind_dyadic': 0.04},
+           min_share=dict(_COMMON, multi_axis_shift=0.22, idx_mask=0.02, idx_slice=0.02, idx_neg=0.02, idx_int=0.025,
+                          idx_npint=0.015, spell_fview=0.05, spell_tuple=0.05, spell_list=0.05, spell_intlist=0.04),
            desc='d - (p1-p0) is an integer combination of the cell vectors, zero along non-periodic directions, for all 8 pbc; '
-                'result shape follows the broadcast; am.dvect and System.dvect (positions and atom indices)'),
-    Clause('best27', oracle_best27, gens_c02.general, quick=12000, thorough=200000,
-           min_share={'nt': 0.35, 'nt_mixed': 0.35, 'tilted': 0.25, 'route_sys_idx': 0.07, 'route_sys_pos': 0.04, 'route_sys_mix': 0.04,
-                      'shape_1-N': 0.09, 'shape_N-1': 0.09, 'shape_N-N': 0.09, 'kind_dyadic': 0.04},
+                'one result row per broadcast pair; am.dvect and System.dvect (positions, atom indices, mixed)'),
+    Clause('best27', oracle_best27, gens_c02.general, quick=12000, thorough=200000, min_share=dict(_COMMON),
            desc='|d| is not longer than any of the 27 (9/3/1) candidates with shifts -1,0,+1 on periodic axes, for all 8 pbc'),
     Clause('mag', oracle_mag, gens_c02.general, quick=10000, thorough=160000,
-           min_share={'nt': 0.35, 'nt_mixed': 0.35, 'tilted': 0.25, 'route_sys_idx': 0.07, 'route_sys_pos': 0.04, 'route_sys_mix': 0.04,
-                      'shape_1-N': 0.09, 'shape_N-1': 0.09, 'shape_N-N': 0.09, 'kind_dyadic': 0.04},
-           desc='dmag equals |dvect| (same route, same inputs) and is not longer than any candidate; shape (N,) follows the broadcast'),
+           min_share=dict(_COMMON, idx_mask=0.02, idx_slice=0.02, idx_int=0.025),
+           desc='dmag equals |dvect| (same route, same inputs) and is not longer than any candidate; one value per broadcast pair'),
     Clause('true_nearest', oracle_true_nearest, gens_c02.premise_heavy, quick=10000, thorough=160000,
-           min_share={'nt': 0.3, 'premise_tilted': 0.12, 'premise_tilted_wrapped': 0.08, 'premise_ortho': 0.15,
-                      'premise_fails_incell': 0.15, 'premise_onface': 0.12, 'unique_vector_checked': 0.4, 'tie': 0.015,
-                      'beyond27': 0.05},
+           min_share={'nt': 0.35, 'premise_tilted': 0.2, 'premise_tilted_wrapped': 0.1, 'premise_ortho': 0.2,
+                      'premise_fails_incell': 0.2, 'premise_onface': 0.19, 'unique_vector_checked': 0.4, 'tie': 0.02,
+                      'beyond27': 0.08, 'kind_dyadic': 0.08},
            desc='both points in the cell and (cell orthogonal or L* < half the smallest perpendicular width) => |d| equals the '
                 'minimum L* of an exhaustive lattice search (vector too when the minimiser is unique); always |d| >= L*'),
     Clause('displacement', oracle_displacement, gens_c02.displacement_cases, quick=8000, thorough=120000,
-           min_share={'nt': 0.3, 'nt_pbc_differ': 0.3, 'nt_boxes_differ': 0.2, 'ref_initial': 0.12, 'ref_default': 0.07,
-                      'ref_None': 0.06},
+           min_share={'nt': 0.3, 'nt_pbc_differ': 0.3, 'nt_boxes_differ': 0.2, 'ref_initial': 0.14, 'ref_default': 0.07,
+                      'ref_None': 0.07, 'ref_final': 0.2},
            desc="displacement(s0, s1, box_reference) under 'final'/default, 'initial', None: lattice + 27-candidate oracles under "
                 'the reference cell and pbc, and equal to dvect atom by atom; all 8 pbc of the reference system'),
 ]
